@@ -2,6 +2,8 @@ import TLVerif.Util.Hex
 import TLVerif.Tool.Tags
 import TLVerif.Tool.OutDir
 import TLVerif.Tool.RelPath
+import TLVerif.Tool.Deconflict
+import TLVerif.Tool.Walk
 /-! Line-protocol handler for the `tool` family (C14, C15, C16, C24): every line is a self-contained case. -/
 namespace TLVerif.Tool
 open TLVerif.Util
@@ -106,12 +108,39 @@ def handleRelPath (a b : String) : String :=
     | .ok rel => "ok " ++ hexOfText rel
   | _, _ => "bad-op"
 
+/-! ### C14: deconflicter; C15: deterministic walk -/
+
+def handleDec (prefill names : String) : String :=
+  let d0 : Deconflicter := ⟨[]⟩
+  let d := if prefill == "1" then d0.fillGolangIdentifies else d0
+  let (rs, _) := d.deconflictAll (commaList names)
+  match allSome rs with
+  | none => "loop"
+  | some l => "ok " ++ showList l
+
+def parseEntry (w : String) : Option Entry :=
+  match w.splitOn ":" with
+  | ["f", p] => some (.file p)
+  | ["l", p] => some (.symlink p)
+  | ["d", p] => some (.dir p)
+  | _ => none
+
+def handleWalk (ext tree roots : String) : String :=
+  match allSome ((commaList tree).map parseEntry) with
+  | none => "bad-op"
+  | some t =>
+    match walkDeterministic (treeListing t) id ext (commaList roots) with
+    | none => "err"
+    | some l => "ok " ++ showList l
+
 def handle (op : String) (args : List String) : String :=
   match op, args with
   | "tags", [t1, t2, _, _] => handleTags t1 t2
   | "tagscli", [t1, t2, _, _] => handleTags t1 t2
   | "outdir", [marker, steps] => handleOutdir fmtIds marker steps
   | "relpath", [a, b] => handleRelPath a b
+  | "dec", [pre, names] => handleDec pre names
+  | "walk", [ext, tree, roots] => handleWalk ext tree roots
   | "outcli", [marker, steps] => handleOutdir (fun _ c => c) marker steps
   | _, _ => "bad-op"
 
